@@ -10,6 +10,12 @@ NOT_APPLICABLE = {
 }
 
 TEXT = {
+    'C15': {
+        'technique': 'Kani proof harnesses on the real impl CommonResponse / CommonPlayer of all 15 response and 11 player types: symbolic scalar fields, pointer identity for strings, as_json and as_original checked',
+        'engine': 'kani',
+        'level_text': 'Bit-precise proof over all values of every numeric / bool / option-scalar field that each accessor returns exactly the field RESPONSES.md assigns to it (string accessors return the very same memory, so the claim is independent of string content), that as_json() carries exactly those values and that as_original() is the same object.',
+        'level_note': 'Player lists have one element (bounded, stated in the evidence); hash tables are empty with fixed keys; epic and minetest types need the tls/serde features, switched on in the scratch copy only; Kani/CBMC trusted.',
+    },
     'C06': {
         'technique': 'Verus contracts on the real Unreal2StringDecoder and the three parse functions: decoder == reference model for every length byte, parsers are left inverses of spec encoders (loops by quantified invariants)',
         'level_text': 'Unbounded proof: decode_string matches the UE2 string model for all 256 length-byte values (Latin-1 and UCS-2, optional 0x01, cursor never past the data), ServerInfo::parse / Players::parse (bot iff ping == 0, every player once, nothing already collected touched) / MutatorsAndRules::parse (every key/value pair recorded once in order) on well-formed bodies of any length, response-header check, request bytes, greedy receive loops terminate on the finite reply script.',
